@@ -81,8 +81,57 @@ fn tx_size(sig: usize, outs: &[usize]) -> usize {
 // per-type bookkeeping is cut out of the accumulate harnesses (comparing ScriptPattern keys that
 // may hold Strings makes CBMC unwind memcmp on merged slots); it is checked by c15_types /
 // c15_pattern_any / c15_opreturn_strip on concrete block contents.
-fn stub_ptp(_s: &mut SimpleStats, p: ScriptPattern, _h: u64, _t: sha256d::Hash, _i: u32) {
+static mut PTP_N: crate::verif_models::Tg<usize> = crate::verif_models::Tg { v: 0, tag: 0x5eedc0de0000004b };
+static mut PTP_KIND: crate::verif_models::Tg<[u8; 8]> = crate::verif_models::Tg { v: [0; 8], tag: 0x5eedc0de0000004c };
+static mut PTP_H: crate::verif_models::Tg<[u64; 8]> = crate::verif_models::Tg { v: [0; 8], tag: 0x5eedc0de0000004d };
+static mut PTP_TX: crate::verif_models::Tg<[u8; 8]> = crate::verif_models::Tg { v: [0; 8], tag: 0x5eedc0de0000004e };
+static mut PTP_IDX: crate::verif_models::Tg<[u32; 8]> = crate::verif_models::Tg { v: [0; 8], tag: 0x5eedc0de0000004f };
+fn kind_of(p: &ScriptPattern) -> u8 {
+    match p {
+        ScriptPattern::Pay2PublicKeyHash => 1,
+        ScriptPattern::Pay2MultiSig => 2,
+        ScriptPattern::NotRecognised => 3,
+        ScriptPattern::Pay2ScriptHash => 4,
+        _ => 9,
+    }
+}
+fn stub_ptp(_s: &mut SimpleStats, p: ScriptPattern, h: u64, t: sha256d::Hash, i: u32) {
+    unsafe {
+        if PTP_N.v < 8 {
+            PTP_KIND.v[PTP_N.v] = kind_of(&p);
+            PTP_H.v[PTP_N.v] = h;
+            PTP_TX.v[PTP_N.v] = t.to_byte_array()[0];
+            PTP_IDX.v[PTP_N.v] = i;
+        }
+        PTP_N.v += 1;
+    }
     core::mem::forget(p);
+}
+/// every output is handed to the per-type bookkeeping with (its pattern, block height, txid, output index), in chain order.
+/// CBMC mode: recorded calls of the cut-out function; native replay: the resulting maps of the real function.
+#[cfg(not(test))]
+fn types_fed_in_order(_st: &SimpleStats, h0: u64, h1: u64) -> bool {
+    let want: [(u8, u64, u8, u32); 6] = [(1, h0, 0xa1, 0), (2, h0, 0xa1, 1), (3, h0, 0xb2, 0), (2, h1, 0xc3, 0), (1, h1, 0xd4, 0), (4, h1, 0xd4, 1)];
+    unsafe {
+        if PTP_N.v != 6 { return false; }
+        let mut i = 0;
+        while i < 6 {
+            if PTP_KIND.v[i] != want[i].0 || PTP_H.v[i] != want[i].1 || PTP_TX.v[i] != want[i].2 || PTP_IDX.v[i] != want[i].3 { return false; }
+            i += 1;
+        }
+    }
+    true
+}
+#[cfg(test)]
+fn types_fed_in_order(st: &SimpleStats, h0: u64, h1: u64) -> bool {
+    st.n_tx_types.get(&ScriptPattern::Pay2PublicKeyHash) == Some(&2)
+        && st.n_tx_types.get(&ScriptPattern::Pay2MultiSig) == Some(&2)
+        && st.n_tx_types.get(&ScriptPattern::NotRecognised) == Some(&1)
+        && st.n_tx_types.get(&ScriptPattern::Pay2ScriptHash) == Some(&1)
+        && st.tx_first_occs.get(&ScriptPattern::Pay2PublicKeyHash) == Some(&(h0, h32(0xa1), 0))
+        && st.tx_first_occs.get(&ScriptPattern::Pay2MultiSig) == Some(&(h0, h32(0xa1), 1))
+        && st.tx_first_occs.get(&ScriptPattern::NotRecognised) == Some(&(h0, h32(0xb2), 0))
+        && st.tx_first_occs.get(&ScriptPattern::Pay2ScriptHash) == Some(&(h1, h32(0xd4), 1))
 }
 
 macro_rules! accumulate {
@@ -160,6 +209,7 @@ macro_rules! accumulate {
             assert!(st.block_sizes.len() == 2 && st.block_sizes[0] == bs0 && st.block_sizes[1] == bs1, "C15:block_size_samples");
             let gap = if ts1 > ts0 { ts1 - ts0 } else { 0 };
             assert!(st.t_between_blocks.len() == 1 && st.t_between_blocks[0] == gap, "C15:clamped_time_gap_sample");
+            assert!(types_fed_in_order(&st, h0, h1), "C15:every_output_counted_under_its_type_with_height_txid_index");
             kani::cover!(a_cb && v[0] > reward_small(h0), "coinbase with fees");
             kani::cover!(a_cb && v[0] < reward_small(h0), "coinbase below subsidy (floored)");
             kani::cover!(!a_cb && c_cb, "second block coinbase only");
@@ -239,37 +289,28 @@ fn c15_opreturn_strip() {
     core::mem::forget(st);
 }
 
-// per-type counts, shares' numerators and first occurrences on a concrete two-block chain
-//@ id=C15 tier=quick name=c15_types timeout=1200 role=types bound=2-blocks,6-outputs-of-4-types(concrete) fn=SimpleStats::on_block,SimpleStats::process_tx_pattern
+// per-type counts and first occurrences: the bookkeeping function itself on a call sequence
+//@ id=C15 tier=quick name=c15_types timeout=900 role=types bound=4-calls,2-types fn=SimpleStats::process_tx_pattern
 #[kani::proof]
 #[kani::unwind(34)]
 fn c15_types() {
-    let ta = mk_tx(0xa1, 0, 0xffff_ffff, 0, vec![mk_out(1, 0, ScriptPattern::Pay2PublicKeyHash), mk_out(2, 0, ScriptPattern::OpReturn(String::from("ab")))]);
-    let tb = mk_tx(0xb2, 0x77, 0, 0, vec![mk_out(3, 0, ScriptPattern::NotRecognised)]);
-    let tc = mk_tx(0xc3, 0, 0xffff_ffff, 0, vec![mk_out(4, 0, ScriptPattern::OpReturn(String::from("cd")))]);
-    let td = mk_tx(0xd4, 0x78, 1, 0, vec![mk_out(5, 0, ScriptPattern::Pay2PublicKeyHash), mk_out(6, 0, ScriptPattern::Pay2ScriptHash)]);
-    let b0 = mk_block(100, 10, vec![ta, tb]);
-    let b1 = mk_block(100, 20, vec![tc, td]);
     let mut st = SimpleStats::default();
-    let r0 = st.on_block(&b0, 5);
-    let r1 = st.on_block(&b1, 6);
-    assert!(r0.is_ok() && r1.is_ok(), "C15:on_block_ok");
-    let k_opret = ScriptPattern::OpReturn(String::new());
-    let k_pkh = ScriptPattern::Pay2PublicKeyHash;
-    let k_nr = ScriptPattern::NotRecognised;
-    let k_sh = ScriptPattern::Pay2ScriptHash;
-    assert!(st.n_tx_outputs == 6, "C15:output_count");
-    assert!(st.n_tx_types.len() == 4, "C15:type_count_keys");
-    assert!(st.n_tx_types.get(&k_opret) == Some(&2), "C15:type_count_opreturn");
-    assert!(st.n_tx_types.get(&k_pkh) == Some(&2), "C15:type_count_p2pkh");
-    assert!(st.n_tx_types.get(&k_nr) == Some(&1), "C15:type_count_notrecognised");
-    assert!(st.n_tx_types.get(&k_sh) == Some(&1), "C15:type_count_p2sh");
-    assert!(st.tx_first_occs.get(&k_opret) == Some(&(5, h32(0xa1), 1)), "C15:first_occurrence_opreturn");
-    assert!(st.tx_first_occs.get(&k_pkh) == Some(&(5, h32(0xa1), 0)), "C15:first_occurrence_p2pkh");
-    assert!(st.tx_first_occs.get(&k_nr) == Some(&(5, h32(0xb2), 0)), "C15:first_occurrence_notrecognised");
-    assert!(st.tx_first_occs.get(&k_sh) == Some(&(6, h32(0xd4), 1)), "C15:first_occurrence_p2sh");
+    st.process_tx_pattern(ScriptPattern::Pay2PublicKeyHash, 5, h32(0xa1), 0);
+    st.process_tx_pattern(ScriptPattern::Pay2ScriptHash, 5, h32(0xa1), 1);
+    st.process_tx_pattern(ScriptPattern::Pay2PublicKeyHash, 6, h32(0xb2), 0);
+    st.process_tx_pattern(ScriptPattern::Pay2PublicKeyHash, 6, h32(0xb2), 1);
+    assert!(st.n_tx_types.len() == 2, "C15:type_count_keys");
+    assert!(st.n_tx_types.get(&ScriptPattern::Pay2PublicKeyHash) == Some(&3), "C15:type_count_p2pkh");
+    assert!(st.n_tx_types.get(&ScriptPattern::Pay2ScriptHash) == Some(&1), "C15:type_count_p2sh");
+    assert!(st.tx_first_occs.len() == 2, "C15:first_occurrence_keys");
+    match st.tx_first_occs.get(&ScriptPattern::Pay2PublicKeyHash) {
+        Some(o) => { assert!(o.0 == 5 && o.1.to_byte_array()[0] == 0xa1 && o.2 == 0, "C15:first_occurrence_p2pkh"); }
+        None => { assert!(false, "C15:first_occurrence_p2pkh"); }
+    }
+    match st.tx_first_occs.get(&ScriptPattern::Pay2ScriptHash) {
+        Some(o) => { assert!(o.0 == 5 && o.1.to_byte_array()[0] == 0xa1 && o.2 == 1, "C15:first_occurrence_p2sh"); }
+        None => { assert!(false, "C15:first_occurrence_p2sh"); }
+    }
     kani::cover!(true, "evaluated");
     core::mem::forget(st);
-    core::mem::forget(b0);
-    core::mem::forget(b1);
 }
